@@ -34,11 +34,12 @@ Record sess := mksess {
   s_proved : bool;      (* TO2: ProveDevice verified, key exchange complete, tunnel keys present *)
   s_ready : bool;       (* TO2: DeviceServiceInfoReady accepted (MTU stored) *)
   s_hmac : bool;        (* TO2: a replacement HMAC was stored (no credential reuse) *)
+  s_devmod : bool;      (* TO2: the device's devmod messages were received (first DeviceServiceInfo) *)
   s_svcdone : bool      (* TO2: the owner modules have completed *)
 }.
 
-Definition fresh (p : proto) : sess := mksess p true false false false false false.
-Definition kill (s : sess) : sess := mksess (s_proto s) false (s_started s) (s_proved s) (s_ready s) (s_hmac s) (s_svcdone s).
+Definition fresh (p : proto) : sess := mksess p true false false false false false false.
+Definition kill (s : sess) : sess := mksess (s_proto s) false (s_started s) (s_proved s) (s_ready s) (s_hmac s) (s_devmod s) (s_svcdone s).
 
 Inductive tokref := TInvalid | TSess (id : nat).     (* none / forged / damaged, or the token of session id *)
 
@@ -71,29 +72,34 @@ Definition needs_tunnel (t : N) : bool := (64 <? t) && (t <? 255).
 (* the responder proper: given the session, returns (response type, new session, effects); 255 = rejected *)
 Definition respond (t : N) (s : sess) (r : request) : N * sess * list effect :=
   let rej := (255, s, []) in
-  let upd st pr rd hm sd := mksess (s_proto s) true st pr rd hm sd in
+  let upd st pr rd hm dm sd := mksess (s_proto s) true st pr rd hm dm sd in
   match s_proto s with
   | PDI =>
-    if t =? 10 then (if r_ok r then (11, upd true false false false false, []) else rej)
+    if t =? 10 then (if r_ok r then (11, upd true false false false false false, []) else rej)
     else if t =? 12 then (if s_started s && r_ok r then (13, s, [EDIVoucher]) else rej)
     else (0, s, [])
   | PTO0 =>
-    if t =? 20 then (if r_ok r then (21, upd true false false false false, []) else rej)
+    if t =? 20 then (if r_ok r then (21, upd true false false false false false, []) else rej)
     else if t =? 22 then (if s_started s && r_ok r then (23, s, [ERVBlob]) else rej)
     else (0, s, [])
   | PTO1 =>
-    if t =? 30 then (if r_ok r then (31, upd true false false false false, []) else rej)
+    if t =? 30 then (if r_ok r then (31, upd true false false false false false, []) else rej)
     else if t =? 32 then (if s_started s && r_ok r then (33, s, []) else rej)
     else (0, s, [])
   | PTO2 =>
-    if t =? 60 then (if r_ok r then (61, upd true false false false false, []) else rej)
+    if t =? 60 then (if r_ok r then (61, upd true false false false false false, []) else rej)
     else if t =? 62 then (if s_started s && r_ok r then (63, s, []) else rej)
     else if t =? 64 then
-      (if s_started s && negb (s_proved s) && r_ok r then (65, upd true true false false false, []) else rej)
+      (if s_started s && negb (s_proved s) && r_ok r then (65, upd true true false false false false, []) else rej)
     else if t =? 66 then
-      (if r_ok r then (67, upd (s_started s) (s_proved s) true (s_hmac s || r_hmac r) (s_svcdone s), []) else rej)
+      (if r_ok r then (67, upd (s_started s) (s_proved s) true (s_hmac s || r_hmac r) (s_devmod s) (s_svcdone s), []) else rej)
     else if t =? 68 then
-      (if s_ready s && negb (s_svcdone s) && r_ok r then (69, upd (s_started s) (s_proved s) true (s_hmac s) true, [EModule]) else rej)
+      (* the first DeviceServiceInfo carries devmod; the next one runs the (single, one-shot) owner module; after that
+         no module is left and a further message is an error *)
+      (if s_ready s && negb (s_svcdone s) && r_ok r then
+         if s_devmod s then (69, upd (s_started s) (s_proved s) true (s_hmac s) true true, [EModule])
+         else (69, upd (s_started s) (s_proved s) true (s_hmac s) true false, [])
+       else rej)
     else if t =? 70 then
       (if r_ok r then (71, s, if s_hmac s then [EReplace] else []) else rej)
     else (0, s, [])
